@@ -92,6 +92,48 @@ def sites(src, fr):
     return out
 
 
+READ_ONLY_METHODS = ('copy', 'get', 'items', 'keys', 'values', '__contains__')
+
+
+def escaping_uses(src, fr):
+    """uses of the global object `name` (dotted, e.g. os.environ) other than reading it: receiver of a read-only
+    method, subscript load, `in` test, argument of dict() / len() / sorted().  Everything else (bound to a variable or
+    attribute, passed on, written through) is a site: the object may be modified or aliased there."""
+    out = []
+    scope = fr.get('scope', ['circus'])
+    excl = fr.get('exclude_modules', [])
+    for qual, node, mi in src.all_functions('circus'):
+        mod = qual.split(':')[0]
+        if not any(mod == s or mod.startswith(s + '.') for s in scope):
+            continue
+        if any(mod == s or mod.startswith(s + '.') for s in excl):
+            continue
+        parent = {}
+        own = list(_own_nodes(node))
+        for n in own:
+            for c in ast.iter_child_nodes(n):
+                parent[id(c)] = n
+        for n in own:
+            if not (isinstance(n, ast.Attribute) and _dotted(n) == fr['object']):
+                continue
+            par = parent.get(id(n))
+            ok = False
+            if isinstance(par, ast.Attribute) and par.value is n and par.attr in READ_ONLY_METHODS and \
+                    isinstance(parent.get(id(par)), ast.Call) and parent[id(par)].func is par:
+                ok = True
+            elif isinstance(par, ast.Subscript) and par.value is n and isinstance(par.ctx, ast.Load):
+                ok = True
+            elif isinstance(par, ast.Compare) and n in par.comparators and \
+                    all(isinstance(o, (ast.In, ast.NotIn)) for o in par.ops):
+                ok = True
+            elif isinstance(par, ast.Call) and n in par.args and isinstance(par.func, ast.Name) and \
+                    par.func.id in ('dict', 'len', 'sorted', 'list'):
+                ok = True
+            if not ok:
+                out.append((qual, n.lineno, 'use of %s that may alias or modify it' % fr['object']))
+    return out
+
+
 def decorated_scan(src, fr):
     """every listed method carries @synchronized(<name>) (util.synchronized / synchronized)"""
     from .extract import deco_name
@@ -155,7 +197,7 @@ def run(fr, src, spec):
         return decorated_scan(src, fr)
     if fr['kind'] == 'body_is':
         return body_is_scan(src, fr)
-    found = defs_scan(src, fr) if fr['kind'] == 'defs' else sites(src, fr)
+    found = defs_scan(src, fr) if fr['kind'] == 'defs' else (escaping_uses(src, fr) if fr['kind'] == 'escaping_use' else sites(src, fr))
     allowed = fr.get('allowed', [])
     bad = []
     for qual, line, what in found:
